@@ -20,9 +20,10 @@ import Nstd.Callback.LemmasTie
   translator does not understand is refused (reported as a broken tie as well).
   `tie_dropSlot`, `tie_dropSignal`, `tie_delEmitterSig` quote the translated loop bodies: they must be the text the translator
   produces (up to the names of bound variables).
-  OPEN: `CallbackBody.dtorActivation` (the translated `~SignalActivation`) is generated and compiled but not yet proved equal
-  to `actEnd` (the model pops the frame before it works on the data, the code afterwards; the equality needs `next < this`
-  from the frame invariant).  The constructor of `SignalActivation` is not translated (hand model `actBegin`, tied by the run).
+      tie_ctorActivation               SignalActivation(emitter, signal); push the frame = `actBegin`
+      tie_dtorActivation               ~SignalActivation; pop the frame = `actEnd`  (innermost frame, `next` below it)
+  `translated_code_runs_as_model`: the machine made of the translated bodies (`machineT`), run by the evaluator on any
+  program, is state for state and log for log the model.
 -/
 set_option linter.unusedSimpArgs false
 set_option linter.unusedVariables false
@@ -246,6 +247,106 @@ theorem tie_dtorEmitter (st : State) (e : Nat) (em : Emitter) (he : st.emitters 
   intro b a hb
   obtain ⟨h1, h2, h3⟩ := tie_delEmitterSig e em b hb.1 hb.2 a
   exact ⟨h1, by rw [h3]; exact hb.1, h2⟩
+
+/-! ### the activation guard: `SignalActivation` constructor and destructor -/
+
+/-- **The translated constructor of `SignalActivation`, followed by the push of the frame, is the model's `actBegin`** — for
+    every state with that emitter: no signal data = inert activation (nothing pushed, `begin == end`); else the frame gets
+    `next` = the previous innermost activation, the data points to the new one, and `begin` is the first node or, for an
+    empty list, the end sentinel for good. -/
+theorem tie_ctorActivation (st : State) (e g : Nat) (em : Emitter) (he : st.emitters e = some em) :
+    H.pushAct (CallbackBody.ctorActivation st st.frames.length e g) st.frames.length = actBegin e g st := by
+  unfold CallbackBody.ctorActivation actBegin
+  simp only [he]
+  cases hd : em.sig g with
+  | none =>
+    have hs : H.sigHas st e g = false := by simp [H.sigHas, State.data, he, hd]
+    simp [hs, H.pushAct, H.derefE, he]
+  | some d =>
+    have h1 : st = st.setEmitter e (some (em.setSig g d)) := by rw [setSig_same hd, setEmitter_same he]
+    rw [h1]
+    simp [H.pushAct, H.listBegin, hd]
+    simp only [State.setEmitter, State.mk.injEq, and_true, true_and]
+    funext e'
+    by_cases h : e' = e <;> simp [h]
+theorem purge_filterMap (xs : List Slot) :
+    xs.filterMap (fun x1 => if x1.state = .disconnected then none else if x1.state = .connecting then some { x1 with state := .connected } else some x1) = purge xs := by
+  induction xs with
+  | nil => rfl
+  | cons x xs ih =>
+    cases hs : x.state <;> simp [List.filterMap_cons, purge, hs, ih]
+
+theorem modData_frames (st : State) (e g : Nat) (φ : SignalData → SignalData) : (H.modData st e g φ).frames = st.frames := by
+  unfold H.modData
+  cases st.emitters e with
+  | none => rfl
+  | some em => simp only; cases em.sig g <;> rfl
+
+@[simp] theorem frNext_modData (st : State) (e g a : Nat) (φ : SignalData → SignalData) : H.frNext (H.modData st e g φ) a = H.frNext st a := by
+  simp [H.frNext, modData_frames]
+@[simp] theorem frData_modData (st : State) (e g a : Nat) (φ : SignalData → SignalData) : H.frData (H.modData st e g φ) a = H.frData st a := by
+  simp [H.frData, modData_frames]
+
+/-- **The translated destructor of `SignalActivation`, followed by the pop of the frame, is the model's `actEnd`** — for
+    every state whose innermost frame is that activation (activations die in reverse order of construction: `no_dangling`)
+    and whose `next` pointer points below it (`LinksOK`, part of the simulation invariant): not invalidated = unregister,
+    and purge when it was the outermost and the list is dirty; invalidated = hand the flag to `next`. -/
+theorem tie_dtorActivation (st : State) (fid : Nat) (f : Frame) (fs : List Frame)
+    (hfr : st.frames = f :: fs) (hlen : fs.length = fid) (hnext : ∀ n, f.next = some n → n < fid) :
+    (CallbackBody.dtorActivation st fid).popFrame fid = actEnd fid st := by
+  subst hlen
+  have hfa : frameAt st.frames fs.length = some f := by rw [hfr]; exact frameAt_top f fs
+  have hpop : popTo st.frames fs.length = fs := by rw [hfr]; exact popTo_top f fs
+  have hI : H.frInvalidated st fs.length = f.invalidated := by simp [H.frInvalidated, hfa]
+  have hN : H.frNext st fs.length = f.next := by simp [H.frNext, hfa]
+  have hD : H.frData st fs.length = f.data := by simp [H.frData, hfa]
+  have hH : H.frHasData st fs.length = true := by simp [H.frHasData, hfa]
+  unfold CallbackBody.dtorActivation actEnd
+  simp only [H.slotsFilterMap, frNext_modData, frData_modData, hI, hN, hD, hH, hfa, if_true]
+  cases hinv : f.invalidated with
+  | true =>
+    simp only [if_true, Bool.not_true, Bool.false_eq_true, if_false]
+    cases hn : f.next with
+    | none => simp [State.popFrame]
+    | some n =>
+      have hlt := hnext n hn
+      simp only [Option.isSome_some, if_true, H.frInvalidateP, invalidate, State.popFrame]
+      have h1 : frameAt st.frames n = frameAt fs n := by rw [hfr]; exact frameAt_cons_lt hlt
+      rw [h1, hpop]
+      cases hfn : frameAt fs n with
+      | none => simp [State.faulted, hpop]
+      | some f' =>
+        simp only [hfr, setInvalid, Nat.ne_of_lt hlt, if_false]
+        have := popTo_top f (setInvalid fs n)
+        rw [setInvalid_length] at this
+        simp [this]
+  | false =>
+    simp only [Bool.false_eq_true, if_false, Bool.not_false, if_true]
+    cases he : st.emitters f.data.1 with
+    | none =>
+      have hm : ∀ φ, H.modData st f.data.1 f.data.2 φ = st.faulted := by intro φ; simp [H.modData, he]
+      have hdirty : H.dirty st.faulted f.data.1 f.data.2 = false := by simp [H.dirty, State.data, State.faulted, he]
+      simp only [hm, hdirty, Bool.false_eq_true, if_false, ite_self]
+      simp [State.popFrame, hpop, he, State.faulted]
+    | some em =>
+      cases hd : em.sig f.data.2 with
+      | none =>
+        have hm : ∀ φ, H.modData st f.data.1 f.data.2 φ = st.faulted := by intro φ; simp [H.modData, he, hd]
+        have hdirty : H.dirty st.faulted f.data.1 f.data.2 = false := by simp [H.dirty, State.data, State.faulted, he, hd]
+        simp only [hm, hdirty, Bool.false_eq_true, if_false, ite_self]
+        simp [State.popFrame, hpop, he, hd, State.faulted]
+      | some d =>
+        have h1 : st = st.setEmitter f.data.1 (some (em.setSig f.data.2 d)) := by rw [setSig_same hd, setEmitter_same he]
+        have hpf : ∀ (a : Option Emitter), (st.setEmitter f.data.1 a).popFrame fs.length = (st.popFrame fs.length).setEmitter f.data.1 a := fun _ => rfl
+        have he0 : ({ st with frames := fs } : State).emitters f.data.1 = some em := he
+        rw [h1]
+        simp only [nf_modData, nf_dirty, purge_filterMap, setEmitter_frames, hpop]
+        rw [← h1]
+        simp only [he0, hd]
+        cases hn : f.next with
+        | some n => simp [hpf, State.popFrame, hpop, State.setEmitter]
+        | none =>
+          cases hdd : d.dirty <;> simp [hpf, State.popFrame, hpop, State.setEmitter]
 
 /-- the nine `connect` templates of the header: all of them pass (src, signal, dest, dest, slot) — the object the slot is
     called on is the receiver (`Slot.object = Slot.receiver` in the model) -/
